@@ -3,6 +3,9 @@
 # quick/thorough: checks = rapid cases per rapid test per shard, shards = processes.
 
 ASSUMPTIONS = {
+    "C09": ["the datastore is the harness's deterministic in-memory implementation of go-datastore (sorted map)", "certificates are structurally valid CBOR-encodable values; signatures are not checked by the store (documented)", "concurrent part is a -race stress run, the Go scheduler is not controlled"],
+    "C10": ["a crash is modelled as the datastore failing every write from the k-th on; the surviving key/value map is what a restarted process sees (write atomicity of single datastore Put/Delete is assumed)", "Get(i) is observed only for i <= latest: an orphan certificate above the pointer is not state"],
+    "C17": ["signatures inside snapshots are not validated by import (not part of the statement)", "rejection of table corruption is demanded only where the format commits to a table: at 1440-instance checkpoints and at the end"],
     "C05": ["harness signature scheme (vcrypto) as trusted base", "reference message validator in harness/vref written from FIP-0086 validity rules and the documented relevance window", "committees are static per instance during a case", "the Go scheduler is not owned by the harness: the concurrent part is a -race stress run"],
     "C13": ["harness signature scheme (vcrypto) as trusted base", "one-shot validation on a fresh participant is the comparison point (itself checked by C05)", "completion uses the production value-inference step via a build-time accessor"],
     "C04": ["harness signature scheme (vcrypto) as trusted base for unforgeability", "reference validator and reference delta application in harness/vref written from the property statement", "no nil certificates are passed (caller precondition)"],
@@ -10,6 +13,15 @@ ASSUMPTIONS = {
 }
 
 PROPS = {
+    "C09": dict(pkg="t_store", run="^TestC09", level="exploration",
+                quick=dict(checks=250, shards=8, timeout=400, race=True, race_run="^TestC09Concurrent", race_checks=25),
+                thorough=dict(checks=8000, shards=16, timeout=2400, race=True, race_run="^TestC09", race_checks=300, env={"VERIF_C09_STEPS": 120})),
+    "C10": dict(pkg="t_store", run="^TestC10", level="fault_enumeration",
+                quick=dict(checks=150, shards=8, timeout=400),
+                thorough=dict(checks=5000, shards=16, timeout=2400)),
+    "C17": dict(pkg="t_store", run="^TestC17", level="exploration",
+                quick=dict(checks=150, shards=8, timeout=400),
+                thorough=dict(checks=4000, shards=16, timeout=2400, env={"VERIF_C17_MAXCERTS": 40})),
     "C05": dict(pkg="t_msgs", run="^TestC05", level="exploration",
                 quick=dict(checks=1200, shards=8, timeout=400, race=True, race_run="^TestC05Concurrent", race_checks=40),
                 thorough=dict(checks=30000, shards=16, timeout=2400, race=True, race_run="^TestC05(Concurrent|History)", race_checks=1500)),
